@@ -29,6 +29,8 @@ type Ctx struct {
 	Prop, Tier, Out string
 	Seed            uint64
 	Thorough        bool
+	Tables          bool // --tables: only regenerate coq/gen files into Out (T2/T3 translators)
+	Race            bool // --race: this binary was built with -race; run the concurrent scenarios
 	rng             uint64
 	streams         map[string]*stream
 	stats           map[string]int
@@ -54,6 +56,8 @@ func Main(prop string, gen func(*Ctx), replay func(*Ctx, json.RawMessage)) {
 	seed := flag.Uint64("seed", 1, "PRNG seed")
 	out := flag.String("out", "", "output directory")
 	rp := flag.String("replay", "", "replay file")
+	tables := flag.Bool("tables", false, "write regenerated coq/gen files into --out and exit")
+	race := flag.Bool("race", false, "run the concurrent scenarios (binary built with -race)")
 	flag.Parse()
 	if *out == "" {
 		fmt.Fprintln(os.Stderr, "missing --out")
@@ -62,7 +66,7 @@ func Main(prop string, gen func(*Ctx), replay func(*Ctx, json.RawMessage)) {
 	os.MkdirAll(*out, 0o755)
 	c := &Ctx{Prop: prop, Tier: *tier, Out: *out, Seed: *seed, Thorough: *tier == "thorough",
 		rng: *seed*0x9E3779B97F4A7C15 + 0x1234567, streams: map[string]*stream{}, stats: map[string]int{},
-		nontrivial: map[[8]byte]struct{}{}, exhaustive: map[string]bool{}}
+		nontrivial: map[[8]byte]struct{}{}, exhaustive: map[string]bool{}, Tables: *tables, Race: *race}
 	if *rp != "" {
 		raw, err := os.ReadFile(*rp)
 		if err != nil {
@@ -291,4 +295,11 @@ func List0(xs []string, ty string) string {
 		return "(@nil " + ty + ")"
 	}
 	return List(xs)
+}
+
+// WriteGen writes a regenerated Coq file (used with --tables) into the output directory.
+func (c *Ctx) WriteGen(name, content string) {
+	if err := os.WriteFile(filepath.Join(c.Out, name), []byte(content), 0o644); err != nil {
+		panic(err)
+	}
 }
